@@ -216,8 +216,8 @@ func c10ConflictDelta(r *Report, fn *ssa.Function) {
 		if !ok || !c.Common().IsInvoke() || c.Common().Method.Name() != "Get" {
 			return false
 		}
-		w, ok := c.Common().Value.(*ssa.Call)
-		if !ok || !w.Common().IsInvoke() || w.Common().Method.Name() != "GetShelfWriter" {
+		w, ok := StripConv(c.Common().Value).(*ssa.Call)
+		if !ok || !w.Common().IsInvoke() || (w.Common().Method.Name() != "GetShelfWriter" && w.Common().Method.Name() != "GetShelfReader") {
 			return false
 		}
 		s, ok := ConstString(w.Common().Args[0])
@@ -261,6 +261,63 @@ func c10ConflictDelta(r *Report, fn *ssa.Function) {
 	if guards[0] != guards[1] {
 		r.Bad(key, rule, r.P.Pos(fn.Pos()), "increment and decrement are guarded by different flags")
 		return
+	}
+	// helper form: the flag is the result of a same-package function that answers "is there a non-empty entry on the shelf
+	// I was given", called with the conflicted shelf
+	shelfAnswer := func(v ssa.Value) bool {
+		ex, ok := v.(*ssa.Extract)
+		if !ok || ex.Index != 0 {
+			return false
+		}
+		call, ok := ex.Tuple.(*ssa.Call)
+		if !ok {
+			return false
+		}
+		h := call.Common().StaticCallee()
+		if h == nil || h.Pkg != fn.Pkg || len(h.Blocks) == 0 || len(h.Params) != len(call.Common().Args) {
+			return false
+		}
+		undo := BindParams(h, call)
+		defer undo()
+		okAll, some := true, false
+		for _, b := range h.Blocks {
+			ret, isRet := b.Instrs[len(b.Instrs)-1].(*ssa.Return)
+			if !isRet || len(ret.Results) == 0 {
+				continue
+			}
+			rv := Unspill(ret.Results[0])
+			if c, isC := ConstBool(rv); isC && !c {
+				continue
+			}
+			pat := &CmpPat{Op: token.LSS, L: IntV(0), R: LenV(isShelfGet), PassWhen: true}
+			if bin, isBin := rv.(*ssa.BinOp); isBin {
+				if holds, m := pat.Match(bin); m && holds {
+					some = true
+					continue
+				}
+			}
+			okAll = false
+		}
+		return okAll && some
+	}
+	if shelfAnswer(guards[0]) {
+		r.OK(key, rule, r.P.Pos(fn.Pos()), "flag = result of a helper that reports a non-empty read of the conflicted shelf; guards both +1 and -1", true)
+		return
+	}
+	if ph, isPhi := guards[0].(*ssa.Phi); isPhi {
+		all := true
+		for _, e := range ph.Edges {
+			if c, isC := ConstBool(e); isC && !c {
+				continue
+			}
+			if !shelfAnswer(e) {
+				all = false
+			}
+		}
+		if all {
+			r.OK(key, rule, r.P.Pos(fn.Pos()), "flag = false or the result of a helper that reports a non-empty read of the conflicted shelf; guards both +1 and -1", true)
+			return
+		}
 	}
 	phi, ok := guards[0].(*ssa.Phi)
 	if !ok {
@@ -349,13 +406,22 @@ func c10Sticky(r *Report) {
 				continue
 			}
 			n++
-			srcs := valueSources(st.Val, 0)
-			if !strings.Contains(srcs, "currentMeta.Deactivated") {
-				r.Bad(key, rule, p.Pos(st.Pos()), "the stored flag does not depend on the current version's Deactivated flag (sources: "+srcs+")")
-				return
+			leaves := OrLeaves(st.Val)
+			cur, nw := false, false
+			var other []string
+			for _, l := range leaves {
+				ap := AccessPath(l, 0)
+				switch {
+				case FieldV("documentMetadata", "Deactivated").M(l) && strings.Contains(ap, "currentMeta"):
+					cur = true
+				case FieldV("documentMetadata", "Deactivated").M(l) && strings.Contains(ap, "newMeta"):
+					nw = true
+				default:
+					other = append(other, ap)
+				}
 			}
-			if !strings.Contains(srcs, "const:true") {
-				r.Bad(key, rule, p.Pos(st.Pos()), "the stored flag is not a disjunction (sources: "+srcs+")")
+			if !cur || !nw || len(other) > 0 {
+				r.Bad(key, rule, p.Pos(st.Pos()), fmt.Sprintf("the stored flag is not the disjunction of the new and the current version's flag (current=%v new=%v other=%v)", cur, nw, other))
 				return
 			}
 		}
